@@ -195,11 +195,34 @@ def state(sim):
     return [[getattr(sim.particles[i], k) for k in XYZ] for i in range(sim.N)]
 
 
-def round_trip(sim, n, dt, ctx, what, P_min, details):
-    """n steps, synchronise, dt -> -dt, n steps, synchronise; assert return within the tolerance."""
+def too_close(sim, dt, dmin):
+    """True if some pair is, or within one step could come (linear bound, 1.5 safety), closer than dmin."""
+    ps = state(sim)
+    for i in range(len(ps)):
+        for j in range(i):
+            d = math.sqrt(sum((ps[i][k] - ps[j][k]) ** 2 for k in range(3)))
+            w = math.sqrt(sum((ps[i][k] - ps[j][k]) ** 2 for k in range(3, 6)))
+            if d - 1.5 * w * abs(dt) < dmin:
+                return True
+    return False
+
+
+def round_trip(sim, n, dt, ctx, what, P_min, details, dmin=None):
+    """n steps, synchronise, dt -> -dt, n steps, synchronise; assert return within the tolerance.
+    dmin: (interacting sheet particles) skip the case if a pair comes closer than dmin on the way out."""
     s0 = state(sim)
     sim.dt = dt
-    sim.steps(n)
+    if dmin is None:
+        sim.steps(n)
+    else:
+        for _ in range(n):
+            if too_close(sim, dt, dmin):
+                ctx.skip("close approach of two sheet particles on the way: not the regular regime")
+                return
+            sim.steps(1)
+        if too_close(sim, dt, dmin):
+            ctx.skip("close approach of two sheet particles on the way: not the regular regime")
+            return
     sim.synchronize()
     s1 = state(sim)
     sim.dt = -dt
@@ -277,7 +300,7 @@ def run_sei(c, ctx):
     P = 2 * math.pi / Om
     dt = c["dt_frac"] * P * (-1.0 if c["backward_first"] else 1.0)
     ctx.cls("sei")
-    round_trip(sim, c["n"], dt, ctx, "sei", P, dict(OMEGA=Om))
+    round_trip(sim, c["n"], dt, ctx, "sei", P, dict(OMEGA=Om), dmin=0.05 if c["gravity"] == "basic" else None)
 
 
 def subs(tier):
